@@ -176,3 +176,42 @@ for _pid in ('C01', 'C02', 'C03', 'C04', 'C05', 'C06', 'C07', 'C08', 'C09', 'C10
          f'{_pid}.z_fwd sibling calls in exclusive branches forward the same parameters; {_pid}.z_drop no wrapper swallows an option its callee accepts; '
          f'{_pid}.z_pair positional pairing only over ordered collections, enumerate-index only on data in the same order; {_pid}.z_get presence of a key is not decided by truthiness of the value')
 more('C07', 'annotation-driven argument rule', 'C07.e (generalised) a value handed to a callable annotated to receive the CircuitOperation of a merged component is a fresh wrapper or guarded by the transformer\'s own tag')
+
+# round 5 (session 3): rules from round-4/5 misses and from defects reported by the round-5 reviewers
+more('C01', 'dimension-aware recognition of X/Z power gates in simulator code; path-sensitive (strong-update) dependence on the phase carrier',
+     'C01.j simulator code that recognises XPowGate/ZPowGate by class looks at the dimension; C01.g (reworked) every path to a return of create_merged_state carries the zero-qubit factor')
+more('C02', 'index discipline on per-key record lists; who-may-read rule on the latest-record view',
+     'C02.l a single record picked for a repeated key is the latest (-1); C02.m samplers build run() results from all records, never from log_of_measurement_results; '
+     'C02.b (extended) in-place mutation through aliases of self (args = self if inplace else copy.copy(self)) counts')
+more('C03', 'closed forms interpreted through the constructor', 'C03.f (extended) the object is built by interpreting __init__, so canonicalisation applied there is covered; PhaseGradientGate added')
+more('C04', 'required isinstance guard on representation-dependent iteration; both-give-up-values rule in cirq.protocols',
+     'C04.g stored control values are iterated / indexed only when known to be a ProductOfSums; C04.h results of _unitary_/_mixture_/_apply_unitary_ are excluded for None and NotImplemented before use')
+more('C05', 'sibling coverage of control keys; running maximum per control key',
+     'C05.k _control_keys_ of every wrapping operation covers the children whose keys the class rewrites; C05.l placement bookkeeping keeps the latest reader per control key')
+more('C06', 'dimension-aware recognition in transformers; running maximum per control key in placement bookkeeping',
+     'C06.p transformers that recognise X/Z power gates by class look at the dimension; C06.q control-key entries are running maxima; C06.n accepts the running maximum')
+more('C07', 'dependence-based body-for-operation rule incl. vendor gatesets, key-aware placement query, nested pair test',
+     'C07.e (reworked) `<untagged>.circuit` consumed in place of the operation needs the own-tag test or the plain-wrapper test; C07.h scheduling uses earliest_available_moment, qubit-only '
+     'queries need a key test in the same decision; C07.a (extended) a validator whose gateset looks inside sub-circuits applies its pair test inside them too')
+more('C08', 'period soundness by interpretation; dimension-aware recognition; control model in the controlled-wrapper bound',
+     'C08.o _period() of PhasedXPowGate and the EigenGate helper return multiples of every eigenphase period; C08.p recognition of X/Z power gates by class is dimension-aware or tabled; '
+     'C08.f (extended) ControlledOperation/ControlledGate bound interpreted with a qutrit control model')
+more('C09', 'no early exit / repeated-key rules on noise models',
+     'C09.j noise models look at every operation of a moment; C09.k measurements set aside by key keep every measurement of a repeated key; C09.c accepts the noise-only keyword dict')
+more('C10', 'holder rule on the parameter protocols', 'C10.i every class whose constructor accepts a symbolic-capable value implements the parameter triple')
+more('C11', 'value-keyed sharing tables; reader construction discipline',
+     'C11.m writer memo / constants tables are never keyed by hash(obj); C11.n every _from_json_dict_ builds with cls(...), not through a method of a decoded part')
+more('C12', 'sibling coverage of control keys; mapped-circuit discipline of terminal queries',
+     'C12.o _control_keys_ covers rewritten children; C12.p are_all/any_matches_terminal read the body of a CircuitOperation only through mapped_circuit()')
+more('C13', 'memoised hash on mutable classes (1 known finding); unitary guard of from_op_list; qubit routing of state updates in _act_on_',
+     'C13.j no class with in-place mutators memoises __hash__ (CliffordTableau: known finding); C13.k from_op_list accepts only unitary operations with stabilizer effect; '
+     'C13.l each definition that reaches a state update in an _act_on_ depends on the qubits argument')
+more('C16', 'sibling-construction agreement, exhaustive writer match, numeric presence through writer calls, common-unit rule',
+     'C16.r sites constructing one message / value class agree on the keyword set; C16.s writer match statements have a default arm; C16.j (extended) `if v: x_to_proto(v)` on numeric '
+     'attributes; C16.t numbers written next to a unit are magnitudes in that unit')
+more('C17', 'attribute coverage of the IonQ handlers; aggregated-count taint',
+     'C17.i every state-bearing constructor field of a dispatched gate class is written or refused by its handler; C17.j rows of a multi-key Result never derive from per-key aggregated counts')
+more('C18', 'who-may-read rule on the latest-record view; axis labels of per-repetition blocks and zero-repetition records; int64 guard by interpretation; aggregated-count taint',
+     'C18.k run() results from all records; C18.g (extended) per-repetition block is (instances, qubits), zero-repetition records are (0, instances, qubits); '
+     'C18.m the fast histogram declines whenever base**n exceeds int64; C18.l rows never from aggregated counts')
+more('C19', 'PhasedXPowGate export by interpretation', 'C19.i PhasedXPowGate._qasm_ == Z^p X^e Z^-p on an (e, p) grid, delegations followed')
